@@ -759,11 +759,25 @@ def run_cache_case(case, tmp: Path) -> Outcome:
     xn = {"x": np.array([9.0, 9.0]), "p": np.array([1.0])}
     copy.cache_outputs(xn, {"y": np.array([1.0]), "z": np.array([0.0, 0.0])})
     if ctype == "HDF5Cache":
+        import pickle as _pickle
+
         from gemseo.caches.hdf5_cache import HDF5Cache
 
         re_attached = HDF5Cache(hdf_file_path=v0["file"], hdf_node_path=v0["node"])
         if OBS.cache_view(re_attached)["entries"] != OBS.cache_view(copy)["entries"]:
             out.fail("file-cache-detached", "what the restored cache stored is not in the original's file and node")
+        # the state holds no copy of the entries: what the original stores after it was pickled is seen by
+        # a copy restored later (a file-based cache stays attached to its file)
+        blob = _pickle.dumps(cache)
+        xl = {"x": np.array([7.0, 7.0]), "p": np.array([1.0])}
+        cache.cache_outputs(xl, {"y": np.array([3.0]), "z": np.array([1.0, 2.0])})
+        late = _pickle.loads(blob)
+        va, vb = OBS.cache_view(cache)["entries"], OBS.cache_view(late)["entries"]
+        if va != vb:
+            out.fail("file-cache-detached", f"a copy restored after the original stored one more entry sees {len(vb)} entries, the file has {len(va)}")
+        el = late[xl]
+        if OBS.canon(dict(el.outputs or {})) != OBS.canon({"y": np.array([3.0]), "z": np.array([1.0, 2.0])}):
+            out.fail("file-cache-detached", "a copy restored after the original stored one more entry does not find that entry")
     else:
         _cmp(out, "copy-affects-original", v0, OBS.cache_view(cache), "writing to the copy changed the original")
     return out
